@@ -74,7 +74,7 @@ func runC02(p *core.Prog, r *core.Result) {
 				r.Check(eqFact(false), "R2.2", fmt.Sprintf("dawn.(*sourceFile).upToDate#false-%d", n), p.InstrPos(ret), "out of date exactly when the sums differ", "a source can be reported changed although its content sum equals the recorded one (e.g. on a timestamp-only touch)")
 			}
 		}
-		r.Floor("R2.2", n, 2, "verdicts of (*sourceFile).upToDate")
+		r.Floor("R2.2", n, 1, "verdicts of (*sourceFile).upToDate")
 		// the fresh sum is stored into f.sum before the comparison
 		if sumCall != nil {
 			stored := false
@@ -181,8 +181,8 @@ func runC02(p *core.Prog, r *core.Result) {
 			}
 		})
 	}
-	r.Floor("R2.4", nDec, 2, "decoders of environments")
-	r.Floor("R2.4", nEnc, 2, "encoders of environments")
+	r.Floor("R2.4", nDec, 1, "decoders of environments")
+	r.Floor("R2.4", nEnc, 1, "encoders of environments")
 }
 
 // checkLoadRewritesRead: the record written back when a target is loaded is exactly the record read.
